@@ -27,6 +27,16 @@ structure Comps.StartNeutral (C : Comps ℝ S E P) : Prop where
   fx : ∀ e, C.fxStart e = e
   never : ∀ s, C.sndFinished s = false
 
+/-- `on_start_processing` leaves the sounds satisfying `IS` / the effects satisfying `IE` as they are, and no
+    such sound is finished (the invariant-relative form of `StartNeutral`) -/
+structure Comps.StartNeutralOn (C : Comps ℝ S E P) (IS : S → Prop) (IE : E → Prop) : Prop where
+  snd : ∀ s, IS s → C.sndStart s = s
+  fx : ∀ e, IE e → C.fxStart e = e
+  never : ∀ s, IS s → C.sndFinished s = false
+
+theorem Comps.StartNeutral.on (h : C.StartNeutral) : C.StartNeutralOn (fun _ => True) (fun _ => True) :=
+  ⟨fun s _ => h.snd s, fun e _ => h.fx e, fun s _ => h.never s⟩
+
 /-- no command written, no sound in the ring, handle alive -/
 def TrkData.Idle (d : TrkData ℝ S E P) : Prop :=
   d.cmdVolume = none ∧ d.cmdPause = none ∧ d.cmdResume = none ∧ (∀ r ∈ d.routes, r.cmd = none)
@@ -61,34 +71,48 @@ theorem Trk.idle_not_removable (t : Trk ℝ S E P) (h : Trk.Idle t) : Trk.should
       have := ((Trk.shouldBeRemoved_iff d c p).mp hr).1
       rw [h.1.2.2.2.2.2] at this; cases this
 
-theorem Trk.onStart_idle (hN : C.StartNeutral) (t : Trk ℝ S E P) : Trk.Idle t → Trk.onStart C t = t := by
-  refine Trk.rec (motive_1 := fun t => Trk.Idle t → Trk.onStart C t = t)
-    (motive_2 := fun ts => Trk.IdleList ts → Trk.onStartKept C ts = ts) ?_ ?_ ?_ t
-  · intro d children pending ihc _ h
-    obtain ⟨hd, hp, hc⟩ := h
+theorem filter_not_finished_on {IS : S → Prop} (fin : S → Bool) (l : List S) (h : ∀ s ∈ l, IS s)
+    (hf : ∀ s, IS s → fin s = false) : l.filter (fun x => !fin x) = l := by
+  rw [List.filter_eq_self]; intro s hs; simp [hf s (h s hs)]
+
+theorem Trk.onStart_idle_on {IS : S → Prop} {IE : E → Prop} (hN : C.StartNeutralOn IS IE) (t : Trk ℝ S E P) :
+    Trk.Idle t → Trk.CompsOk IS IE t → Trk.onStart C t = t := by
+  refine Trk.rec (motive_1 := fun t => Trk.Idle t → Trk.CompsOk IS IE t → Trk.onStart C t = t)
+    (motive_2 := fun ts => Trk.IdleList ts → Trk.CompsOkList IS IE ts → Trk.onStartKept C ts = ts) ?_ ?_ ?_ t
+  · intro d children pending ihc _ h hc
+    obtain ⟨hd, hp, hcl⟩ := h
+    obtain ⟨hdc, hcc⟩ := hc
     subst hp
-    rw [Trk.onStart, Trk.readCommands_idle d hd, ihc hc]
+    rw [Trk.onStart, Trk.readCommands_idle d hd, ihc hcl hcc]
     have hs : (removeAndAdd C.sndFinished d.sounds d.pendingSounds).map C.sndStart = d.sounds := by
       rw [hd.2.2.2.2.1]
-      simp only [removeAndAdd, List.reverse_nil, List.nil_append, hN.never, Bool.not_false, List.filter_true]
-      exact map_id_of _ _ (fun s _ => hN.snd s)
-    have he : d.effects.map C.fxStart = d.effects := map_id_of _ _ (fun e _ => hN.fx e)
+      simp only [removeAndAdd, List.reverse_nil, List.nil_append]
+      rw [filter_not_finished_on C.sndFinished d.sounds hdc.1 hN.never]
+      exact map_id_of _ _ (fun s hs => hN.snd s (hdc.1 s hs))
+    have he : d.effects.map C.fxStart = d.effects := map_id_of _ _ (fun e he => hN.fx e (hdc.2 e he))
     rw [hs, he]
     have hps := hd.2.2.2.2.1
     simp only [Trk.onStartList, List.reverse_nil, List.nil_append]
     cases d; simp_all
-  · intro _; simp [Trk.onStartKept]
-  · intro t ts iht ihts h
+  · intro _ _; simp [Trk.onStartKept]
+  · intro t ts iht ihts h hc
     rw [Trk.onStartKept, Trk.idle_not_removable t h.1]
-    simp [iht h.1, ihts h.2]
+    simp [iht h.1 hc.1, ihts h.2 hc.2]
 
-theorem Trk.onStartKept_idle (hN : C.StartNeutral) (ts : List (Trk ℝ S E P)) (h : Trk.IdleList ts) :
-    Trk.onStartKept C ts = ts := by
+theorem Trk.onStartKept_idle_on {IS : S → Prop} {IE : E → Prop} (hN : C.StartNeutralOn IS IE) (ts : List (Trk ℝ S E P))
+    (h : Trk.IdleList ts) (hc : Trk.CompsOkList IS IE ts) : Trk.onStartKept C ts = ts := by
   induction ts with
   | nil => simp [Trk.onStartKept]
   | cons t ts ih =>
     rw [Trk.onStartKept, Trk.idle_not_removable t h.1]
-    simp [Trk.onStart_idle C hN t h.1, ih h.2]
+    simp [Trk.onStart_idle_on C hN t h.1 hc.1, ih h.2 hc.2]
+
+theorem Trk.onStart_idle (hN : C.StartNeutral) (t : Trk ℝ S E P) (h : Trk.Idle t) : Trk.onStart C t = t :=
+  Trk.onStart_idle_on C (Comps.StartNeutral.on C hN) t h (Trk.compsOk_true t)
+
+theorem Trk.onStartKept_idle (hN : C.StartNeutral) (ts : List (Trk ℝ S E P)) (h : Trk.IdleList ts) :
+    Trk.onStartKept C ts = ts :=
+  Trk.onStartKept_idle_on C (Comps.StartNeutral.on C hN) ts h (Trk.compsOkList_true ts)
 
 /-- nothing in flight anywhere in the mixer -/
 structure Mixer.Idle (m : Mixer ℝ S E P) : Prop where
@@ -98,11 +122,12 @@ structure Mixer.Idle (m : Mixer ℝ S E P) : Prop where
   sends : ∀ s ∈ m.sendTracks, s.marked = false ∧ s.cmdVolume = none
   main : m.main.cmdVolume = none ∧ m.main.pendingSounds = []
 
-/-- **`on_start_processing` does nothing when nothing is in flight** -/
-theorem Mixer.onStart_idle (hN : C.StartNeutral) (m : Mixer ℝ S E P) (h : Mixer.Idle m) : m.onStart C = m := by
+/-- **`on_start_processing` does nothing when nothing is in flight** (invariant-relative) -/
+theorem Mixer.onStart_idle_on {IS : S → Prop} {IE : E → Prop} (hN : C.StartNeutralOn IS IE) (m : Mixer ℝ S E P)
+    (h : Mixer.Idle m) (hc : Mixer.CompsOk IS IE m) : m.onStart C = m := by
   unfold Mixer.onStart
   have h1 : (Trk.onStartList C m.pendingSubTracks).reverse ++ Trk.onStartKept C m.subTracks = m.subTracks := by
-    rw [h.pending, Trk.onStartKept_idle C hN _ h.subs]; simp [Trk.onStartList]
+    rw [h.pending, Trk.onStartKept_idle_on C hN _ h.subs hc.subs]; simp [Trk.onStartList]
   have h2 : (removeAndAdd (fun s : SendTrk ℝ E => s.marked) m.sendTracks m.pendingSendTracks).map (SendTrk.onStart C)
       = m.sendTracks := by
     rw [h.pendingSends]
@@ -114,25 +139,30 @@ theorem Mixer.onStart_idle (hN : C.StartNeutral) (m : Mixer ℝ S E P) (h : Mixe
     apply List.map_congr_left
     intro s hs
     unfold SendTrk.onStart
-    have he : s.effects.map C.fxStart = s.effects := map_id_of _ _ (fun e _ => hN.fx e)
-    have hc := (h.sends s hs).2
-    rw [he, hc]
+    have he : s.effects.map C.fxStart = s.effects := map_id_of _ _ (fun e he => hN.fx e (hc.sends s hs e he))
+    have hcm := (h.sends s hs).2
+    rw [he, hcm]
     cases s; simp_all
   have h3 : m.main.onStart C = m.main := by
     unfold MainTrk.onStart
     have hs : (removeAndAdd C.sndFinished m.main.sounds m.main.pendingSounds).map C.sndStart = m.main.sounds := by
       rw [h.main.2]
-      simp only [removeAndAdd, List.reverse_nil, List.nil_append, hN.never, Bool.not_false, List.filter_true]
-      exact map_id_of _ _ (fun s _ => hN.snd s)
-    have he : m.main.effects.map C.fxStart = m.main.effects := map_id_of _ _ (fun e _ => hN.fx e)
-    have hc := h.main.1
+      simp only [removeAndAdd, List.reverse_nil, List.nil_append]
+      rw [filter_not_finished_on C.sndFinished m.main.sounds hc.mainS hN.never]
+      exact map_id_of _ _ (fun s hs => hN.snd s (hc.mainS s hs))
+    have he : m.main.effects.map C.fxStart = m.main.effects := map_id_of _ _ (fun e he => hN.fx e (hc.mainE e he))
+    have hcm := h.main.1
     have hp := h.main.2
-    rw [hs, he, hc]
+    rw [hs, he, hcm]
     cases hm : m.main; simp_all
   rw [h1, h2, h3]
   have hp := h.pending
   have hps := h.pendingSends
   cases m; simp_all
+
+/-- **`on_start_processing` does nothing when nothing is in flight** -/
+theorem Mixer.onStart_idle (hN : C.StartNeutral) (m : Mixer ℝ S E P) (h : Mixer.Idle m) : m.onStart C = m :=
+  Mixer.onStart_idle_on C (Comps.StartNeutral.on C hN) m h (Mixer.compsOk_true m)
 
 /-! rendering keeps "nothing in flight" -/
 
@@ -226,25 +256,34 @@ theorem Renderer.specChunks_idle (hC : C.LenPres) (ch : Nat) (ns : List Nat) :
     simp only [Renderer.specChunks]
     exact ih _ (Mixer.spec_idle C r.mixer n r.dt _ h)
 
-/-- with nothing in flight, whole device callbacks are just the `process` calls -/
-theorem Renderer.runDeviceCallbacks_eq (hC : C.LenPres) (hH : ∀ dt, C.ChunkHom dt) (hV : V.Static)
-    (hVs : ∀ e, V.start e = e) (hN : C.StartNeutral) (ch : Nat) (cbs : List Nat) :
-    ∀ (r : Renderer ℝ S E P X), r.Quiet → Mixer.Idle r.mixer →
+/-- with nothing in flight, whole device callbacks are just the `process` calls (invariant-relative) -/
+theorem Renderer.runDeviceCallbacks_eq_on {IS : S → Prop} {IE : E → Prop} {IX : X → Prop} {B : Nat} {dt : ℝ}
+    (hC : C.LenPres) (hH : C.ChunkHomOn IS IE B dt) (hV : V.StaticOn IX)
+    (hVs : ∀ e, IX e → V.start e = e) (hN : C.StartNeutralOn IS IE) (ch : Nat) (cbs : List Nat) :
+    ∀ (r : Renderer ℝ S E P X), r.QuietOn IS IE IX B dt → Mixer.Idle r.mixer →
       Renderer.runDeviceCallbacks C V ch r cbs = Renderer.runCallbacks C V ch r cbs := by
   induction cbs with
   | nil => intro r _ _; rfl
   | cons f fs ih =>
     intro r hq hi
     have hos : r.onStart C V = r := by
-      unfold Renderer.onStart; rw [Mixer.onStart_idle C hN r.mixer hi, hVs]
+      unfold Renderer.onStart; rw [Mixer.onStart_idle_on C hN r.mixer hi hq.comps, hVs _ hq.env]
     have hb := chunkSizes_bound f r.ibs f
-    obtain ⟨h1, _⟩ := Renderer.runChunks_spec C V hC ch r hq.1 _ (fun n hn => (hb n hn).1)
-    obtain ⟨q, _⟩ := Renderer.specChunks_quiet C V hC hH hV ch _ r hq (fun n hn => (hb n hn).1)
+    obtain ⟨h1, _⟩ := Renderer.runChunks_spec C V hC ch r hq.quiet.1 _ (fun n hn => (hb n hn).1)
+    have q := Renderer.specChunks_quiet_on C V hC hH hV ch _ r hq (fun n hn => (hb n hn).1)
     have hi' := Renderer.specChunks_idle C V hC ch (chunkSizes f r.ibs f) r hi
     simp only [Renderer.runDeviceCallbacks, Renderer.runCallbacks, hos]
     have hloop : Renderer.processLoop C V ch f r f = Renderer.specChunks C V ch r (chunkSizes f r.ibs f) := by
       rw [Renderer.processLoop_eq, h1]
     rw [ih _ (hloop ▸ q) (hloop ▸ hi')]
+
+/-- with nothing in flight, whole device callbacks are just the `process` calls -/
+theorem Renderer.runDeviceCallbacks_eq (hC : C.LenPres) (hH : ∀ dt, C.ChunkHom dt) (hV : V.Static)
+    (hVs : ∀ e, V.start e = e) (hN : C.StartNeutral) (ch : Nat) (cbs : List Nat)
+    (r : Renderer ℝ S E P X) (hq : r.Quiet) (hi : Mixer.Idle r.mixer) :
+      Renderer.runDeviceCallbacks C V ch r cbs = Renderer.runCallbacks C V ch r cbs :=
+  Renderer.runDeviceCallbacks_eq_on C V hC (Comps.ChunkHom.on C (hH r.dt) r.ibs) (EnvOps.Static.on V hV)
+    (fun e _ => hVs e) (Comps.StartNeutral.on C hN) ch cbs r (Renderer.Quiet.on r hq) hi
 
 end
 end K
